@@ -4,6 +4,7 @@
 -/
 import Kskm.Ops.Core
 import Kskm.SkrXml
+import Kskm.TimeIsoCal
 open Lean
 namespace Kskm.Ops
 
@@ -33,6 +34,32 @@ def pkgEOps : List (String × Op) := [
   ("days_of_civil", fun j => do
       let y : Int ← arg j "y"; let m : Nat ← arg j "m"; let d : Nat ← arg j "d"
       pure (toJson (daysOfCivil { year := y, month := m, day := d }))),
+  -- work package B2: ISO week dates, `date.isocalendar`, the separator finder and the octets `fromisoformat` reads
+  ("parse_datetime_octets", fun j => do
+      -- the general transcription (UTF-8 octets, week dates) on EVERY text, also where `fromIsoChars` has its own path
+      let s : String ← arg j "text"
+      let cs := stripTrailingZ s.toList
+      pure (toJson (if cs.length < 7 then (err .value : Res Int) else fromIsoGeneral cs))),
+  ("iso_to_civil", fun j => do
+      let y : Int ← arg j "y"; let w : Nat ← arg j "w"; let d : Nat ← arg j "d"
+      pure (match isoToCivil y w d with
+        | some c => toJson [c.year, (c.month : Int), (c.day : Int)]
+        | none => Json.null)),
+  ("iso_calendar", fun j => do
+      let z : Int ← arg j "days"
+      let r := isoCalendar z
+      pure (toJson [r.1, r.2.1, r.2.2])),
+  ("find_iso_separator", fun j => do
+      let s : String ← arg j "text"
+      pure (match findIsoSeparator (utf8OfChars s.toList) with
+        | some n => toJson n
+        | none => toJson (-1 : Int))),
+  ("utf8_octets", fun j => do
+      let s : String ← arg j "text"
+      pure (toJson ((utf8OfChars s.toList).map Char.toNat))),
+  ("py_decimal", fun j => do
+      let cs : List Nat ← arg j "codes"
+      pure (toJson (cs.map fun n => match pyDecimal? (Char.ofNat n) with | some d => (d : Int) | none => -1))),
   ("skr_to_xml", fun j => do let r : Response ← arg j "response"; pure (toJson (skrToXml r))),
   ("writer_domain", fun j => do let r : Response ← arg j "response"; pure (toJson (writerDomain r))),
   ("skr_tree", fun j => do
